@@ -41,10 +41,59 @@ CACHE_DIR = os.path.join(common.VERIF, '.cache', 'obl')
 USE_CACHE = os.environ.get('MMVERIF_NOCACHE', '') == ''
 
 
+# Hub functions: every search property (C01-C04, C09-C11, C13, C15) rests on
+# their contracts, so a change that breaks one of their (untagged-by-clause)
+# obligations is reported by the check of each of these properties - the
+# caller-side proofs only see the callee's contract, never its body.
+CHAIN_PROPS = ('C01', 'C02', 'C03', 'C04', 'C09', 'C10', 'C11', 'C13', 'C15')
+HUBS = {
+    'geoeligibility': ['GeoAssignments.__init__', 'GeoEligibility.__init__',
+                       'GeoEligibility.get_eligible_assignments'],
+    'tbrmmdata': ['TBRMMData.__init__', 'TBRMMData.geo_index.setter',
+                  'TBRMMData.aggregate_time_series',
+                  'TBRMMData.aggregate_geo_share'],
+    'tbrmatchedmarkets': ['TBRMatchedMarkets.__init__',
+                          'TBRMatchedMarkets.geos_over_budget',
+                          'TBRMatchedMarkets.geos_too_large',
+                          'TBRMatchedMarkets.geos_must_include',
+                          'TBRMatchedMarkets.geos_within_constraints',
+                          'TBRMatchedMarkets.geo_assignments'],
+}
+_RETAGGED = set()
+
+
+def _retag_hubs(modname):
+  from mmverif.engine import specs
+  if modname in _RETAGGED or modname not in HUBS:
+    return
+  _RETAGGED.add(modname)
+  sp = specs.REGISTRY.get(modname)
+  if sp is None:
+    return
+  for q in HUBS[modname]:
+    c = sp.contracts.get(q)
+    if c is None:
+      continue
+    old = tuple(c.props)
+    new = tuple(dict.fromkeys(old + CHAIN_PROPS))
+    groups = [c.requires, c.ensures, list(c.raises.values()), c.yields,
+              getattr(c, 'gen_post', []) or [], getattr(c, 'on_raise', []) or []]
+    for g in groups:
+      for cl in g:
+        if tuple(cl.props) == old:      # clause without tags of its own
+          cl.props = new
+    for lp in (c.loops or []):
+      for cl in lp.invariants:
+        if tuple(cl.props) == old:
+          cl.props = new
+    c.props = new
+
+
 def load_sidecar(modname):
   m = importlib.import_module(SIDECARS[modname])
   if hasattr(m, '_load_second_part'):
     m._load_second_part()
+  _retag_hubs(modname)
   return m
 
 
